@@ -1447,6 +1447,11 @@ func (fr *Frame) step(st *State, in ssa.Instruction) bool {
 			ex.trustedUsed["go statement starting a call whose contract assigns nothing: no effect on the sequential view ("+fr.fn.Name()+")"] = true
 			break
 		}
+		if comps, ok := fr.goAssigns(x); ok {
+			// the started call may run at any time from here on: what its contract lets it write is unknown
+			ex.havocComps(st, comps)
+			break
+		}
 		ex.note("go statement in %s: treated as an environment step (all heap havocked)", fr.fn.Name())
 		ex.havocAll(st, "go statement")
 	case *ssa.Range:
